@@ -24,7 +24,13 @@ pub enum EvOp {
     Counts,
     DropNotifier(usize),
     DropListener(usize),
+    ExtraNotifier,
+    ExtraListener,
+    Probe(bool, usize),
+    DropExtras,
 }
+
+pub const NPROBE: usize = 6;
 
 pub trait NotifierSide {
     fn alive(&self) -> bool;
@@ -44,6 +50,9 @@ pub trait EvWorld {
     fn make_notifier(&self, cfg: &EvCfg) -> Result<Box<dyn NotifierSide>, String>;
     fn make_listener(&self, cfg: &EvCfg) -> Result<Box<dyn ListenerSide>, String>;
     fn counts(&self) -> (usize, usize);
+    /// kind 0 larger event id range, 1 more notifiers, 2 more listeners, 3 service does not exist,
+    /// 4 create although it exists, 5 plain open (succeeds)
+    fn probe(&self, cfg: &EvCfg, svc: &str, kind: usize) -> String;
     fn teardown(self: Box<Self>, node_first: bool);
 }
 
@@ -89,6 +98,24 @@ impl<S: Service + 'static> EvWorld for RWorld<S> {
     fn counts(&self) -> (usize, usize) {
         let f = self.factory.as_ref().unwrap();
         (f.dynamic_config().number_of_notifiers(), f.dynamic_config().number_of_listeners())
+    }
+    fn probe(&self, cfg: &EvCfg, svc: &str, kind: usize) -> String {
+        let node = self.node.as_ref().unwrap();
+        let name = ServiceName::new(svc).unwrap();
+        let nx = ServiceName::new(&format!("{}_nx", svc)).unwrap();
+        let b = || node.service_builder(&name).event();
+        let r = match kind {
+            0 => b().event_id_max_value(cfg.max_id + 1).open().map(|f| drop(f)).map_err(rust_err),
+            1 => b().max_notifiers(5).open().map(|f| drop(f)).map_err(rust_err),
+            2 => b().max_listeners(5).open().map(|f| drop(f)).map_err(rust_err),
+            3 => node.service_builder(&nx).event().open().map(|f| drop(f)).map_err(rust_err),
+            4 => b().create().map(|f| drop(f)).map_err(rust_err),
+            _ => b().open().map(|f| drop(f)).map_err(rust_err),
+        };
+        match r {
+            Ok(()) => "ok".into(),
+            Err(e) => e,
+        }
     }
     fn teardown(mut self: Box<Self>, node_first: bool) {
         if node_first {
@@ -151,13 +178,19 @@ pub fn gen_ops(cfg: &EvCfg, rng: &mut Rng, maxops: usize) -> Vec<EvOp> {
             EvOp::Notify(rng.below(cfg.nnotifiers))
         } else if r < 60 {
             EvOp::NotifyId(rng.below(cfg.nnotifiers), rng.below(cfg.max_id + 3))
-        } else if r < 92 {
+        } else if r < 86 {
             EvOp::TryWait(rng.below(cfg.nlisteners))
+        } else if r < 89 {
+            EvOp::ExtraNotifier
+        } else if r < 92 {
+            EvOp::ExtraListener
+        } else if r < 97 {
+            EvOp::Probe(rng.chance(50), rng.below(NPROBE))
         } else {
             EvOp::Counts
         });
     }
-    let mut tail = Vec::new();
+    let mut tail = vec![EvOp::DropExtras];
     for i in 0..cfg.nnotifiers {
         tail.push(EvOp::DropNotifier(i));
     }
@@ -257,8 +290,40 @@ fn run_mode(mode: &str, a_c: bool, b_c: bool, cfg: &EvCfg, ops: &[EvOp], case: u
                 }
             }
         }
+        let mut extra_n: Vec<Box<dyn NotifierSide>> = Vec::new();
+        let mut extra_l: Vec<Box<dyn ListenerSide>> = Vec::new();
         for op in ops {
             match op {
+                EvOp::ExtraNotifier => {
+                    let obs = match wa.make_notifier(cfg) {
+                        Ok(p) => {
+                            extra_n.push(p);
+                            "ok".to_string()
+                        }
+                        Err(e) => e,
+                    };
+                    line("extranotifier".into(), obs);
+                }
+                EvOp::ExtraListener => {
+                    let obs = match wb.make_listener(cfg) {
+                        Ok(p) => {
+                            extra_l.push(p);
+                            "ok".to_string()
+                        }
+                        Err(e) => e,
+                    };
+                    line("extralistener".into(), obs);
+                }
+                EvOp::Probe(side_a, kind) => {
+                    let obs = if *side_a { wa.probe(cfg, &svc, *kind) } else { wb.probe(cfg, &svc, *kind) };
+                    line(format!("probe {} {}", if *side_a { "a" } else { "b" }, kind), obs);
+                }
+                EvOp::DropExtras => {
+                    let n = extra_n.len() + extra_l.len();
+                    extra_n.clear();
+                    extra_l.clear();
+                    line("dropextras".into(), format!("dropped={}", n));
+                }
                 EvOp::Notify(i) => {
                     let obs = match nots[*i].as_mut() {
                         Some(n) if n.alive() => res(n.notify()),
@@ -312,6 +377,8 @@ fn run_mode(mode: &str, a_c: bool, b_c: bool, cfg: &EvCfg, ops: &[EvOp], case: u
         }
         drop(nots);
         drop(lis);
+        drop(extra_n);
+        drop(extra_l);
         wa.teardown(nf.0);
         wb.teardown(nf.1);
     }
